@@ -3,7 +3,7 @@
    is exactly the ISO frame of r; spec = None (outside the documented domain) -> the builder fails. *)
 From Coq Require Import ZArith List Bool String.
 From UDS Require Import Lib.Bytes Lib.ErrM Model.Svc_Dtc Model.Svc_File Spec.IsoRequests Model.Message Model.Client Model.Services Model.Helpers
-  Model.MemLoc Model.Svc_Simple Model.Svc_Memory Model.Svc_Did Model.History Proofs.Client_lemmas Proofs.C07_lemmas Proofs.C14_lemmas.
+  Model.MemLoc Model.Svc_Simple Model.Svc_Memory Model.Svc_Did Model.History Proofs.Client_lemmas Proofs.C07_lemmas Proofs.C07b_lemmas Proofs.C14_lemmas.
 Import ListNotations.
 Open Scope Z_scope.
 
@@ -121,7 +121,26 @@ Theorem C07_authentication : forall st task a,
 Proof. exact authentication_agrees. Qed.
 Print Assumptions C07_authentication.
 
-(* C07_partial: the builders of io_control, dynamically_define_did by memory address (its widths: C14), and request_file_transfer
-   are not yet characterised by a Coq theorem against Spec/IsoRequests.v; for
-   them the documented domain and the exact frame are checked by the boundary-complete correspondence against the
-   independent oracle tools/harness/isospec.py (same statement, evaluated on the implementation and on the model). *)
+(* request_file_transfer: every mode of operation, path, data format and file size argument (integer or Filesize object with any
+   combination of given / absent / negative / oversized fields) *)
+Theorem C07_file_transfer : forall st moop path d f,
+  agrees st (rft_make moop path d f) (iso_file_transfer moop path d (fs_iso f)).
+Proof. exact file_transfer_agrees. Qed.
+Print Assumptions C07_file_transfer.
+Theorem C07_file_transfer_is_the_call : forall cfg st moop path d f now s,
+  run_inner cfg st (CFileTransfer moop path d f) now s = single_request cfg st (rft_make moop path d f) (rft_interpret cfg moop d) no_post now s.
+Proof. reflexivity. Qed.
+
+(* io_control: every DID, control parameter, values and mask argument (none / all-or-nothing boolean / named list), against the
+   configured entry of the DID (its own, else the default one; codec length, named mask values, mask size) *)
+Theorem C07_io_control : forall st cfg did cp values masks,
+  agrees st (io_make cfg did cp values masks) (iso_io_control (io_entry_of cfg did) did cp values (masks_iso masks)).
+Proof. exact io_control_agrees. Qed.
+Print Assumptions C07_io_control.
+Theorem C07_io_control_is_the_call : forall cfg st did cp v m now s,
+  run_inner cfg st (CIoControl did cp v m) now s = single_request cfg st (io_make cfg did cp v m) (io_interpret cfg did cp) no_post now s.
+Proof. reflexivity. Qed.
+
+(* C07_partial: the builder of dynamically_define_did by memory address (its widths: C14) is not yet characterised by a Coq theorem
+   against Spec/IsoRequests.v; for it the documented domain and the exact frame are checked by the boundary-complete correspondence
+   against the independent oracle tools/harness/isospec.py (same statement, evaluated on the implementation and on the model). *)
